@@ -49,7 +49,8 @@ def edges(fmt, names):
     stems = [n[:-4] for n in names]
     if fmt in ("cbdt", "sbix"):
         for s in stems:
-            out += [("resvg", s + ".png"), ("nanoemoji.pngquant", s + ".png"), ("zopfli.png", s + ".png")]
+            # "pngquant" is the binary the nanoemoji.pngquant wrapper step spawns: it can die while its parent lives on
+            out += [("resvg", s + ".png"), ("nanoemoji.pngquant", s + ".png"), ("pngquant", s + ".png"), ("zopfli.png", s + ".png")]
     else:
         for s in stems:
             out.append(("picosvg", s + ".svg"))
@@ -89,6 +90,11 @@ def plan(tier, seed):
         for k, (opt, val) in enumerate(EDIT_OPTIONS):
             if tier == "thorough" or fmt in ("cbdt", "sbix") or k >= 5:
                 cases.append({"id": f"{fmt}-option-{opt}-{k}", "kind": "edit", "fmt": fmt, "option": [opt, val]})
+    if tier == "quick":
+        # the spawned pngquant binary dying under its (surviving) wrapper step: always enumerated
+        for phase in ("first", "incremental"):
+            for mode in ("fail", "kill_truncate"):
+                cases.append({"id": f"cbdt-{phase}-pngquant-binary-emoji_u41.png-{mode}", "kind": "fault", "fmt": "cbdt", "phase": phase, "fault": f"pngquant|emoji_u41.png|{mode}"})
     cases += [{"id": f"{seed}-hist{i}", "kind": "history", "i": i} for i in range(NHIST[tier])]
     return cases
 
